@@ -152,6 +152,89 @@ def r_fielddedup(ctx):
         ctx.incomplete_msg(rid, "only %d name lists evaluated" % n)
 
 
+def r_recbox(ctx):
+    import absint
+    from absint import Interp, MutList, Unknown, OPAQUE
+    rid = "C17.recbox"
+    ctx.rule(rid, "apply_recursive_boxing leaves no struct that contains itself by value: on small definition graphs (a struct referring "
+                  "to itself or to a struct that refers back, directly, through Option<..> — a nullable field — or through nested Option) "
+                  "every cycle of by-value containment passes a boxed field afterwards; Vec<..> is indirection and needs no box "
+                  "(abstract evaluation of the pass and of the functions it calls; an unboxed cycle is a type of infinite size, the "
+                  "generated code does not compile)", floor=6)
+    f = ctx.facts
+    fi = f.fn(F, "apply_recursive_boxing")
+    free = MODULE_FNS(f)
+
+    def fld(n, t, optional=False):
+        return ("enum", "RustField", {"name": ("str", n), "original_name": ("str", n), "rust_type": ("str", t), "is_boxed": False, "is_optional": optional,
+                                      "doc": MutList(), "tag": ("None",)})
+
+    def struct(n, *fields):
+        return ("enum", "RustTypeDef::Struct", {"name": ("str", n), "fields": MutList(list(fields)), "doc": MutList()})
+    graphs = {
+        "Node { next: Node } (optional field)": [struct("Node", fld("value", "i64"), fld("next", "Node", True))],
+        "Node { next: Option<Node> } (nullable)": [struct("Node", fld("value", "i64"), fld("next", "Option<Node>"))],
+        "Node { next: Option<Option<Node>> } (optional and nullable)": [struct("Node", fld("next", "Option<Node>", True))],
+        "A { b: B }, B { a: Option<A> }": [struct("A", fld("b", "B")), struct("B", fld("a", "Option<A>"))],
+        "A { b: B }, B { a: A }": [struct("A", fld("b", "B")), struct("B", fld("a", "A"))],
+        "Node { children: Vec<Node> }": [struct("Node", fld("children", "Vec<Node>"))],
+        "A { b: B }, B { v: i64 } (no cycle)": [struct("A", fld("b", "B")), struct("B", fld("v", "i64"))],
+    }
+
+    def inner(t):
+        while t.startswith("Option<") and t.endswith(">"):
+            t = t[len("Option<"):-1]
+        return t
+    for label, defs in graphs.items():
+        dl = MutList(defs)
+        holder = [None]
+
+        def on_call(kind, nm, node, args, recv):
+            if kind == "fn" and nm and "::" not in nm and nm in free:
+                return (absint.CURRENT or holder[0]).call_fn_node(free[nm], args)
+            return NotImplemented
+        it = Interp(env={}, on_call=on_call, max_steps=600000)
+        it.nested_fns = True
+        it.string_places = True
+        it.consts = {}
+        holder[0] = it
+        try:
+            it.call_fn_node(fi.node, [dl])
+        except Unknown as e:
+            ctx.incomplete_msg(rid, "%s: %s" % (label, e))
+            continue
+        names = {d[2]["name"][1] for d in defs}
+        edges = {}
+        boxed = []
+        for d in defs:
+            for fl in d[2]["fields"]:
+                t = absint._strval(fl[2]["rust_type"])
+                tgt = inner(t)
+                if fl[2]["is_boxed"] is True:
+                    boxed.append("%s.%s" % (d[2]["name"][1], absint._strval(fl[2]["name"])))
+                elif tgt in names and fl[2]["is_boxed"] is False:
+                    edges.setdefault(d[2]["name"][1], set()).add(tgt)
+                elif tgt in names:
+                    ctx.incomplete_msg(rid, "%s: is_boxed of %s is %r" % (label, t, fl[2]["is_boxed"]))
+        # a cycle among the unboxed by-value edges?
+        cyc = None
+        for start in sorted(names):
+            seen, stack = set(), [start]
+            while stack:
+                x = stack.pop()
+                for y in edges.get(x, ()):
+                    if y == start:
+                        cyc = start
+                    if y not in seen:
+                        seen.add(y)
+                        stack.append(y)
+        ctx.site(rid, label, F, fi.line, {"boxed_fields": boxed, "unboxed_by_value_edges": {k: sorted(v) for k, v in edges.items()}})
+        if cyc:
+            kind = "nullable" if "Option<" in label else "plain"
+            ctx.violation(rid, "unboxed-cycle|%s" % kind, F, fi.line, "definitions %s: after the boxing pass %s still contains itself by value (unboxed edges %s): "
+                          "the generated type has infinite size and does not compile" % (label, cyc, {k: sorted(v) for k, v in edges.items()}))
+
+
 IMPURE = ("SystemTime", "Instant", "rand::", "thread_rng", "std::env", "env::var", "thread_local", "RandomState", "Utc::now", "Local::now", "std::process", "std::fs")
 
 
@@ -312,3 +395,4 @@ def run(ctx):
     ctx.guarded("C17.typemap", r_typemap)
     ctx.guarded("C17.optional", r_optional)
     ctx.guarded("C17.fielddedup", r_fielddedup)
+    ctx.guarded("C17.recbox", r_recbox)
